@@ -153,6 +153,9 @@ pub struct MapEng<'c, KD: Kind, const N: usize> {
     pub cur_target: usize,
     /// a container is known to be broken (len > capacity, iteration panics): never drop it
     pub poisoned: bool,
+    /// a container is malformed (duplicate keys, len disagrees with iteration, dead element) and
+    /// the armed property does not own that: the rest of the case is discarded
+    pub abandon: bool,
     /// the current op exercised an overflow / capacity path (C03 scope)
     pub op_overflow: bool,
     pub ever_overflow: bool,
@@ -196,6 +199,7 @@ impl<'c, KD: Kind, const N: usize> MapEng<'c, KD, N> {
             dup_paths: 0,
             cur_target: 0,
             poisoned: false,
+            abandon: false,
             op_overflow: false,
             ever_overflow: false,
             op_unchecked: false,
@@ -303,6 +307,7 @@ impl<'c, KD: Kind, const N: usize> MapEng<'c, KD, N> {
         let p_all = p_well.union(p_ledger).union(state0);
         let p_leak = PS::of(Prop::C02).and(Prop::C17).and(Prop::C03).and(Prop::C18).and(Prop::C15).inter(elig);
         let mut stored: Vec<u32> = Vec::new();
+        let mut malformed = false;
         for w in 0..2 {
             // the slot the op did not address must be untouched: independence of clones (C15)
             let (state, ident) = if target == 2 || target == w { (state0, ident0) } else { (PS::of(Prop::C15), PS::of(Prop::C15)) };
@@ -313,11 +318,15 @@ impl<'c, KD: Kind, const N: usize> MapEng<'c, KD, N> {
                 Err(_) => {
                     cx.chk(p_all, false, "broken-container", || "iterating the container panicked".into());
                     self.poisoned = true;
+                    self.abandon = true;
                     return;
                 }
             };
             let len = slot.c.m.len();
             let cap = slot.c.m.capacity();
+            if obs.len() != len || len > cap || obs.iter().any(|o| !o.live) {
+                malformed = true;
+            }
             cx.chk(p_well, obs.len() == len, "len-vs-iter", || format!("len()={} but iteration yields {} entries", len, obs.len()));
             cx.chk(p_well, slot.c.m.is_empty() == (len == 0), "is_empty", || format!("is_empty()={} with len()={}", slot.c.m.is_empty(), len));
             cx.chk(p_well, len <= cap, "len-vs-capacity", || format!("len()={len} exceeds capacity()={cap}"));
@@ -348,6 +357,9 @@ impl<'c, KD: Kind, const N: usize> MapEng<'c, KD, N> {
                 // key uniqueness and lookup agreement (C05)
                 for (i, a) in obs.iter().enumerate() {
                     for b in &obs[i + 1..] {
+                        if a.raw == b.raw {
+                            malformed = true;
+                        }
                         cx.chk(p_well, a.raw != b.raw, "duplicate-key", || format!("key {} is yielded twice by iteration", a.raw));
                     }
                 }
@@ -452,6 +464,12 @@ impl<'c, KD: Kind, const N: usize> MapEng<'c, KD, N> {
                 }
                 cx.chk(p_leak, ok, "leak", || msg);
             }
+        }
+        if malformed && !liar && !self.cx.failed() {
+            // broken container, and the armed property does not own that for this operation:
+            // nothing the model says afterwards is about this property any more
+            self.abandon = true;
+            self.poisoned = true;
         }
         self.faulted = false;
         self.op_overflow = false;
@@ -674,6 +692,11 @@ pub fn run<KD: Kind, const N: usize>(case: &Case, cx: &mut Ctx) {
             break;
         }
         if e.cx.failed() {
+            break;
+        }
+        if e.abandon {
+            e.cx.discard = true;
+            e.cx.bump(S::discarded_setups);
             break;
         }
     }
